@@ -1587,3 +1587,8 @@ V("r10-c15-closure-squaring-p-rounds", "C15", "silent", UT, _TC_OLD, _tc_squarin
 V("r10-c15-closure-squaring-floor", "C15", "fire", UT, _TC_OLD, _tc_squaring("int(np.log2(p)) if p > 1 else 0"), rule="CLOSURE.rounds", what="floor(log2 p) rounds: one short for p = 6, 7, 10-15, ...")
 V("r10-c15-closure-squaring-unguarded", "C15", "fire", UT, _TC_OLD, _tc_squaring("int(np.ceil(np.log2(p - 1)))"), rule="CLOSURE.rounds", what="log2(0) for a single node")
 V("r10-c15-closure-squaring-half", "C15", "fire", UT, _TC_OLD, _tc_squaring("int(np.ceil(np.log2(p))) - 1 if p > 1 else 0"), rule="CLOSURE.rounds", what="one round dropped")
+
+# ---- the small re-spellings of refactoring round 6 applied to the whole tree, against every check
+for _i in (1, 2, 3, 4, 5, 6, 7, 8, 10, 11, 12, 13, 14, 15, 16, 17, 18, 19, 20):
+    VARIANTS.append(dict(id="small-idioms-c%02d" % _i, prop="C%02d" % _i, expect="silent", rule=None, edits=[("@small_idioms",)],
+                         what="np.where(m)[0] -> np.flatnonzero(m), X[a, :] -> X[a], x ** 0.5 -> pow(x, 0.5), len(pa(...)) > 0 -> pa(...) everywhere"))
